@@ -66,3 +66,6 @@ flag("fixD4nNextRefTracksErrors", PM, r"pub fn next_ref\(.*?TrackErrors \{.*?Une
      "D4n repaired: next_ref treats an UnexpectedEof raised by the reader below while a header is read as an error")
 flag("fixD4pIteratorTracksErrors", PM, r"impl<R: BufRead> Iterator for PacketParser<R> \{.*?fn next\(&mut self\).*?TrackErrors \{.*?UnexpectedEof && !tracked\.failed.*?Some\(res\)\s*\}\s*\}",
      "D4p repaired: the PacketParser iterator does the same")
+
+flag("fixD17cFixedGeneratorHonoursLength", "src/packet/literal_data.rs", r"impl<R: io::Read> io::Read for LiteralDataFixedGenerator<R> \{.*?source_left == 0.*?source yields more data than its announced length.*?source yields less data than its announced length",
+     "D17c repaired: LiteralDataFixedGenerator hands out exactly the announced amount of source data and fails otherwise")
